@@ -491,7 +491,28 @@ def rule_placeholders(ctx):
                 e = g[3]
                 if e[0] == "bin" and e[1] == "Eq" and is_max(e[3]) and g[2] in ([None], [1]):
                     pre = True
-            if made or pre:
+            # ... and the placeholder has to *land* in the match list: where the enclosing body does not hand a Match
+            # back to its caller (a `retain`/`for_each` closure, a plain loop), every path from the increment to the
+            # return must push a Match or overwrite a match cell in place
+            landed = True
+            ret_ty = fn.b["locals"][0].get("ty", "") if fn.b.get("locals") else ""
+            if made and not pre and "Match" not in ret_ty:
+                lands = set()
+                for b_ in sorted(fn.live):
+                    for s_ in fn.blocks[b_]["stmts"]:
+                        if s_["k"] != "assign" or not s_["lhs"]["p"] or s_["lhs"]["p"][0] != "deref":
+                            continue
+                        lty = fn.b["locals"][s_["lhs"]["l"]].get("ty", "")
+                        if "Match" in lty and "Vec<" not in lty:
+                            lands.add(b_)
+                    t_ = fn.blocks[b_]["term"]
+                    if t_["k"] == "call" and callee(t_).rsplit("::", 1)[-1] in ("push", "push_within_capacity", "extend", "extend_from_slice", "insert") and t_.get("args") \
+                            and "matches" in show(fn.expr_of_operand(t_["args"][0])):
+                        lands.add(b_)
+                landed = ibi in lands or fn.all_paths_to_return_pass(ibi, via_nodes=lands)
+            if not landed:
+                ctx.violation("%s|unmatched-placeholder-dropped|1" % fn.path, site(fn, ibi), "`unmatched` incremented, but a path from there to the end of the body neither pushes the placeholder nor overwrites a match cell: the truncate then cuts off a real match")
+            elif made or pre:
                 ctx.ok(site(fn, ibi), "`unmatched` incremented together with a placeholder")
             else:
                 ctx.violation("%s|unmatched-without-placeholder|1" % fn.path, site(fn, ibi), "`unmatched` incremented on a path that leaves no placeholder: a real match is cut off by the truncate")
